@@ -43,6 +43,17 @@ thread_local! {
     static SOCKET_FACTORY: RefCell<Option<Arc<dyn SocketFactory>>> = const { RefCell::new(None) };
     static TAP: RefCell<Option<Arc<dyn Fn(usize, TapEvent) + Send + Sync>>> = const { RefCell::new(None) };
     static JITTER: RefCell<Option<Duration>> = const { RefCell::new(None) };
+    static INLINE_RESOLVE: std::cell::Cell<bool> = const { std::cell::Cell::new(false) };
+}
+
+/// H7: resolve literal socket addresses inline (no `spawn_blocking`) for dials made on the
+/// current thread, so that no real thread takes part in a simulated execution.
+pub fn set_inline_resolve(on: bool) {
+    INLINE_RESOLVE.with(|f| f.set(on));
+}
+
+pub(crate) fn inline_resolve() -> bool {
+    INLINE_RESOLVE.with(|f| f.get())
 }
 
 /// Install (or clear) the socket factory for endpoints created on the current thread.
